@@ -341,7 +341,15 @@ func (e *verifMR) configure(api, ctxMode, rbeh int) int {
 }
 
 func (e *verifMR) call(api int, ctx context.Context) (any, error) {
-	opts := []Option{WithWorkers(e.workers)}
+	// a configured worker count below the minimum means the minimum (one mapper at a time)
+	cfg := e.workers
+	if cfg == 1 {
+		cfg = []int{1, 0, -3}[verifChoose("configuredWorkers", 3)]
+		if cfg < 1 {
+			verifReach("workers-below-minimum")
+		}
+	}
+	opts := []Option{WithWorkers(cfg)}
 	if ctx != nil {
 		opts = append(opts, WithContext(ctx))
 	}
